@@ -15,7 +15,10 @@ Import ListNotations.
 Open Scope Z_scope.
 
 (* ---------------------------------------------------------------- function codes *)
-Inductive pcode := PLt (c : Z) | PNe (c : Z) | PPar (r : Z) | PTrue | PFalse.
+(* PMod / PIn are the non-monotone ones: they may fail in the middle of a slice and hold again later *)
+Inductive pcode := PLt (c : Z) | PNe (c : Z) | PPar (r : Z) | PTrue | PFalse
+                 | PMod (m r : Z)          (* x mod m == r  (m > 0, mathematical modulo) *)
+                 | PIn (xs : list Z).      (* x is one of xs *)
 Definition interp_p (p : pcode) (x : Z) : bool :=
   match p with
   | PLt c => x <? c
@@ -23,6 +26,8 @@ Definition interp_p (p : pcode) (x : Z) : bool :=
   | PPar r => (x mod 2) =? r
   | PTrue => true
   | PFalse => false
+  | PMod m r => (x mod m) =? r
+  | PIn xs => existsb (Z.eqb x) xs
   end.
 
 Inductive mcode := MAff (a b : Z) | MConst (c : Z).
@@ -40,7 +45,9 @@ Definition interp_j (j : jcode) (x : Z) : list Z :=
 
 (* ---------------------------------------------------------------- expressions *)
 (* [EArg] / [EShift] are the leaves that mention the argument x of the innermost enclosing
-   join function (x = 0 at top level): From(x) and FromSlice([x+y | y <- ys]). *)
+   join function (x = 0 at top level): From(x) and FromSlice([x+y | y <- ys]).
+   [EWhen p s] is the conditional body  if !p(x) { return nil }; return <s>  : a join function that
+   answers nil for SOME elements and a nested expression for the others. *)
 Inductive e :=
 | EFrom (v : Z)
 | ESlice (xs : list Z)
@@ -52,7 +59,8 @@ Inductive e :=
 | EMap (m : mcode) (s : e)
 | EPlus (l r : e)
 | EJoin (j : jcode) (s : e)          (* Join(s, interp_j j) *)
-| EJoinE (body : e) (s : e).         (* Join(s, func(x) { return <body> }) *)
+| EJoinE (body : e) (s : e)          (* Join(s, func(x) { return <body> }) *)
+| EWhen (p : pcode) (s : e).         (* if p(x) then <s> else nil *)
 
 (* ---------------------------------------------------------------- list semantics *)
 Fixpoint takew {A} (f : A -> bool) (l : list A) : list A :=
@@ -73,6 +81,7 @@ Fixpoint den (x : Z) (t : e) : list Z :=
   | EPlus l r => den x l ++ den x r
   | EJoin j s => flat_map (interp_j j) (den x s)
   | EJoinE b s => flat_map (fun a => den a b) (den x s)
+  | EWhen p s => if interp_p p x then den x s else []
   end.
 
 (* the source slices of an expression, in pre-order *)
@@ -80,7 +89,7 @@ Fixpoint sources (t : e) : list (list Z) :=
   match t with
   | ESlice xs => [xs]
   | EFrom _ | EArg | EShift _ => []
-  | ETakeW _ s | EDropW _ s | EFilter _ s | EMap _ s | EJoin _ s => sources s
+  | ETakeW _ s | EDropW _ s | EFilter _ s | EMap _ s | EJoin _ s | EWhen _ s => sources s
   | EPlus l r => sources l ++ sources r
   | EJoinE b s => sources b ++ sources s
   end.
@@ -259,6 +268,7 @@ with build (fuel : nat) (x : Z) (t : e) {struct fuel} : option it :=
       | None => None
       | Some i => if is_nil i then Some INil else joinc_loop n i (JE b)
       end
+  | EWhen p s => if interp_p p x then build n x s else Some INil
   end end
 
 (* the [for] of func DropWhile *)
